@@ -1,5 +1,114 @@
-import SdModel.Model.Lev
-import SdModel.Model.Codec
+import SdModel.Lemmas.Lev
+import SdModel.Props.C08
+
+/-!
+# C07 — ordered list diff round trip: source patched with diff(target, source) = target
+
+`Lev.hirschberg` / `Lev.levenshtein` model the two public algorithms (`eq` is an ARBITRARY Boolean relation:
+no reflexivity, symmetry or transitivity is assumed, which covers `PartialEq` types such as `f64`).
+`Lev.PW eq r t` : `r` and `t` have the same length and every `r[k]` is `t[k]` itself (a written element) or a
+kept source element with `eq t[k] r[k] = true` — "equal element-by-element to the target under the element
+type's own equality".  The constants (costs, cutoff) are the ones regenerated from the source on this run; the
+theorems need only `costs ≥ 1`, which `decide` checks.
+-/
 namespace C07
-theorem placeholder : True := trivial
+open Lev Script
+variable {α : Type}
+
+def costs : Costs := ⟨Gen.deleteCost, Gen.replaceCost, Gen.insertCost⟩
+
+/-- side conditions on the constants extracted from the source: every edit costs at least 1
+(this is what makes the early exit `changelist.len() == total cost` sound) -/
+theorem costs_pos : 1 ≤ costs.D ∧ 1 ≤ costs.R ∧ 1 ≤ costs.I := by decide
+
+theorem seg_full (l : List α) : seg l 0 l.length = l := by simp [seg]
+
+/-- the divide-and-conquer algorithm (the one the derive uses): patched source = target, no index out of range -/
+theorem roundtrip_hirschberg (eq : α → α → Bool) (t s : List α) :
+    match hirschberg eq costs Gen.levCutoff t s with
+    | none => PW eq s t
+    | some d => ∃ r, runList d s = some r ∧ PW eq r t := by
+  obtain ⟨T', h1, h2⟩ := hirsch_correct eq costs costs_pos.1 costs_pos.2.1 costs_pos.2.2 Gen.levCutoff t s
+    0 t.length 0 s.length (Nat.zero_le _) (Nat.zero_le _) (Nat.le_refl _) [] [] rfl
+  simp only [seg_full, List.nil_append, List.append_nil] at h1 h2
+  cases hh : hirschImpl eq costs Gen.levCutoff t s 0 t.length 0 s.length with
+  | nil =>
+    rw [hh] at h1
+    simp only [List.reverse_nil, runList, Option.some.injEq] at h1
+    subst h1
+    simp only [hirschberg, hh]; exact h2
+  | cons c cs =>
+    rw [hh] at h1
+    simp only [hirschberg, hh]; exact ⟨T', h1, h2⟩
+
+/-- the full-table algorithm -/
+theorem roundtrip_levenshtein (eq : α → α → Bool) (t s : List α) :
+    match levenshtein eq costs t s with
+    | none => PW eq s t
+    | some d => ∃ r, runList d s = some r ∧ PW eq r t := by
+  obtain ⟨T', h1, h2⟩ := lev_correct eq costs costs_pos.1 costs_pos.2.1 costs_pos.2.2 t s 0 [] [] rfl
+  simp only [List.nil_append, List.append_nil] at h1
+  have hl : levImpl eq costs t s 0 t.length 0 s.length =
+      bt (fullTable eq costs t s) (lookup (fullTable eq costs t s) t.length s.length).cost 0 t.reverse s.reverse 0 := by
+    simp only [levImpl, seg_full]
+  cases hh : levImpl eq costs t s 0 t.length 0 s.length with
+  | nil =>
+    rw [← hl, hh] at h1
+    simp only [runList, Option.some.injEq] at h1
+    subst h1
+    simp only [levenshtein, hh]; exact h2
+  | cons c cs =>
+    rw [← hl, hh] at h1
+    simp only [levenshtein, hh]; exact ⟨T', h1, h2⟩
+
+/-- composition with C08/C09: the REAL application path (collect the source into a rope, apply every change
+through the rope, iterate out) gives that same list and never panics — into any collection, since the
+result is produced by the rope's consuming iterator -/
+theorem roundtrip_on_rope (eq : α → α → Bool) (t s : List α) (d : List (Change α))
+    (h : hirschberg eq costs Gen.levCutoff t s = some d ∨ levenshtein eq costs t s = some d) :
+    ∃ r, Script.apply Gen.ropeParams d s = .ok r ∧ PW eq r t := by
+  rcases h with h | h
+  · have := roundtrip_hirschberg eq t s
+    rw [h] at this
+    obtain ⟨r, h1, h2⟩ := this
+    exact ⟨r, C08.script_rope_eq_list d s r h1, h2⟩
+  · have := roundtrip_levenshtein eq t s
+    rw [h] at this
+    obtain ⟨r, h1, h2⟩ := this
+    exact ⟨r, C08.script_rope_eq_list d s r h1, h2⟩
+
+/-- `PW` with a reflexive `eq` is element-wise equality under `eq` -/
+theorem PW_iff_of_refl (eq : α → α → Bool) (hrefl : ∀ x, eq x x = true) (a b : List α) :
+    PW eq a b ↔ a.length = b.length ∧ ∀ k (h1 : k < b.length) (h2 : k < a.length), eq b[k] a[k] = true := by
+  constructor
+  · intro h
+    induction h with
+    | nil => simp
+    | cons hx _ ih =>
+      refine ⟨by simp [ih.1], ?_⟩
+      intro k h1 h2
+      cases k with
+      | zero => rcases hx with rfl | hx; exact hrefl _; exact hx
+      | succ k => simpa using ih.2 k (by simpa using h1) (by simpa using h2)
+  · intro h
+    obtain ⟨hl, hk⟩ := h
+    induction a generalizing b with
+    | nil => cases b with
+      | nil => exact .nil
+      | cons _ _ => simp at hl
+    | cons x xs ih =>
+      cases b with
+      | nil => simp at hl
+      | cons y ys =>
+        refine .cons (.inr (hk 0 (by simp) (by simp))) (ih ys (by simpa using hl) ?_)
+        intro k h1 h2
+        simpa using hk (k+1) (by simpa using h1) (by simpa using h2)
+
+/-- the diff is absent ONLY when the sequences are element-wise equal (both algorithms) -/
+theorem absent_only_if_equal (eq : α → α → Bool) (t s : List α)
+    (h : hirschberg eq costs Gen.levCutoff t s = none ∨ levenshtein eq costs t s = none) : PW eq s t := by
+  rcases h with h | h
+  · have := roundtrip_hirschberg eq t s; rw [h] at this; exact this
+  · have := roundtrip_levenshtein eq t s; rw [h] at this; exact this
+
 end C07
